@@ -145,8 +145,10 @@ pub open spec fn sb_of_slice(b: std::ops::Bound<&[u8]>) -> SB {
 //@ extract lsmtk/src/tree/mod.rs | impl Version :: fn range_scan :: fn compare_bounds_le
 //@ prefix #[verifier::allow(undeclared_external_trait)]
 //@ ret r
-//@ rewrite X9 `(Bound::Included(x), Bound::Included(y)) => x <= y,` => `(Bound::Included(x), Bound::Included(y)) => bytes_le(x, y),`
-//@ rewrite-re X9 `=> x < y,` => `=> bytes_lt(x, y),`
+//@ rewrite-re? X9 `=> x <= y,` => `=> bytes_le(x, y),`
+//@ rewrite-re? X9 `=> x < y,` => `=> bytes_lt(x, y),`
+//@ rewrite-re? X9 `=> x >= y,` => `=> bytes_le(y, x),`
+//@ rewrite-re? X9 `=> x > y,` => `=> bytes_lt(y, x),`
 //@ post <<
         overlaps(sb_of(lhs), sb_of(rhs)) ==> r,
 //@ >>
